@@ -2869,6 +2869,97 @@ TickUseful == \/ \E u \in Threads : pc[u] = "wn_7_pd" /\ rt[u] < NONE /\ rt[u] >
 Tick == /\ now < MaxNow /\ TickUseful
         /\ now' = now + 1
         /\ UNCHANGED <<pc, live, notified, exp, par, kids, wts, disc, lk, nww, sem, cval, cwaited, cq, clk, nwc, cmu, badmu, cz, ip, ret, dres, called, dl0, lpar, wfor, freeing, badret, vcount, uaf, taint4, taint5, taint6, stack, cn, cp, i, klist, w, tn, p, dn, nt, xn, xcl, wn, wp, wdl, fail, fn, fp, fi, fk, cdl, cv, cwk, objs, adl, single, wm, k, rt, cnt, rdy, enq, wq, unl, sdl, scn, sct, sldl, snear, sso, st, pn>>
+\* BEGIN GENERATED (tools/mkspec.py)
+KindMap == [x \in {"c0", "ca_1_lk", "ca_2_ld", "ca_3_cas", "ca_4_l", "ca_4_ld", "ca_5_l", "ca_5_st", "ca_6_v", "ca_7_ul", "cd_1_lk", "cd_2_ld", "cd_3_ld", "cd_4_st", "cd_5_ul", "ce_1_lk", "ce_2_ld", "ce_3_st", "ce_4_ul", "cr_1_st", "cr_2_ld", "ml_1_lk", "ml_2_ul", "nc_1_ld", "nc_2_st", "nc_3_st", "nc_4_v", "nc_5_l", "nc_5_lk", "nc_6_ul", "nc_7_r", "nc_8_lk", "nc_9_l", "nc_k_l", "nc_w_l", "nd_1_ld", "nd_2_lk", "nd_3_ld", "nd_4_ul", "nd_5_l", "ne_1_lk", "ne_2_ld", "ne_3_st", "ne_4_ul", "ne_5_l", "nf_10_l", "nf_11_ul", "nf_12_l", "nf_13_ul", "nf_1_l", "nf_1_lk", "nf_2_r", "nf_3_ul", "nf_4_lk", "nf_4b_lk", "nf_5_l", "nf_6_l", "nf_6_lk", "nf_7_ul", "nf_8_r", "nf_9_lk", "nf_k_l", "nn_0_l", "nn_1_l", "nn_2_l", "nn_3_lk", "nn_4_ld", "nn_5_ul", "np_0_l", "np_1_l", "nq_2_lk", "nq_3_l", "nq_3_ld", "nq_4_st", "nq_5_ul", "nq_6_l", "nt_1_lk", "nt_2_l", "nt_2_ld", "nt_3_r", "nt_4_ul", "nt_5_lk", "nt_6_lk", "nt_7_l", "nt_7_ul", "nt_7b_l", "nt_7c_l", "nt_8_ul", "nx_0_l", "nx_1_l", "nx_2_l", "sc_0_l", "sc_1_l", "sc_2_st", "sc_3_lk", "sc_4_ld", "sc_5_ul", "sc_6_l", "sc_6_pd", "sc_7_lk", "sc_8_ld", "sc_9_ul", "sc_p_pd", "sc_r_l", "sv_1_v", "wd_0_l", "wd_1_l", "wd_8_l", "wd_9_l", "we_1_l", "wl_0_l", "wl_1_l", "wl_2_l", "wl_3_l", "wn_1_st", "wn_7_pd", "ws_1_l", "ws_2_l", "wu_0_l", "wu_1_ul", "wu_2_lk", "Done"} |-> CASE x = "c0" -> "c" [] x = "ca_1_lk" -> "lock" [] x = "ca_2_ld" -> "ld" [] x = "ca_3_cas" -> "cas" [] x = "ca_4_l" -> "local" [] x = "ca_4_ld" -> "ld" [] x = "ca_5_l" -> "local" [] x = "ca_5_st" -> "st" [] x = "ca_6_v" -> "v" [] x = "ca_7_ul" -> "unlock" [] x = "cd_1_lk" -> "lock" [] x = "cd_2_ld" -> "ld" [] x = "cd_3_ld" -> "ld" [] x = "cd_4_st" -> "st" [] x = "cd_5_ul" -> "unlock" [] x = "ce_1_lk" -> "lock" [] x = "ce_2_ld" -> "ld" [] x = "ce_3_st" -> "st" [] x = "ce_4_ul" -> "unlock" [] x = "cr_1_st" -> "st" [] x = "cr_2_ld" -> "ld" [] x = "ml_1_lk" -> "lock" [] x = "ml_2_ul" -> "unlock" [] x = "nc_1_ld" -> "ld" [] x = "nc_2_st" -> "st" [] x = "nc_3_st" -> "st" [] x = "nc_4_v" -> "v" [] x = "nc_5_l" -> "local" [] x = "nc_5_lk" -> "lock" [] x = "nc_6_ul" -> "unlock" [] x = "nc_7_r" -> "region" [] x = "nc_8_lk" -> "lock" [] x = "nc_9_l" -> "local" [] x = "nc_k_l" -> "local" [] x = "nc_w_l" -> "local" [] x = "nd_1_ld" -> "ld" [] x = "nd_2_lk" -> "lock" [] x = "nd_3_ld" -> "ld" [] x = "nd_4_ul" -> "unlock" [] x = "nd_5_l" -> "local" [] x = "ne_1_lk" -> "lock" [] x = "ne_2_ld" -> "ld" [] x = "ne_3_st" -> "st" [] x = "ne_4_ul" -> "unlock" [] x = "ne_5_l" -> "local" [] x = "nf_10_l" -> "local" [] x = "nf_11_ul" -> "unlock" [] x = "nf_12_l" -> "local" [] x = "nf_13_ul" -> "unlock" [] x = "nf_1_l" -> "local" [] x = "nf_1_lk" -> "lock" [] x = "nf_2_r" -> "region" [] x = "nf_3_ul" -> "unlock" [] x = "nf_4_lk" -> "lock" [] x = "nf_4b_lk" -> "lock" [] x = "nf_5_l" -> "local" [] x = "nf_6_l" -> "local" [] x = "nf_6_lk" -> "lock" [] x = "nf_7_ul" -> "unlock" [] x = "nf_8_r" -> "region" [] x = "nf_9_lk" -> "lock" [] x = "nf_k_l" -> "local" [] x = "nn_0_l" -> "local" [] x = "nn_1_l" -> "local" [] x = "nn_2_l" -> "local" [] x = "nn_3_lk" -> "lock" [] x = "nn_4_ld" -> "ld" [] x = "nn_5_ul" -> "unlock" [] x = "np_0_l" -> "local" [] x = "np_1_l" -> "local" [] x = "nq_2_lk" -> "lock" [] x = "nq_3_l" -> "local" [] x = "nq_3_ld" -> "ld" [] x = "nq_4_st" -> "st" [] x = "nq_5_ul" -> "unlock" [] x = "nq_6_l" -> "local" [] x = "nt_1_lk" -> "lock" [] x = "nt_2_l" -> "local" [] x = "nt_2_ld" -> "ld" [] x = "nt_3_r" -> "region" [] x = "nt_4_ul" -> "unlock" [] x = "nt_5_lk" -> "lock" [] x = "nt_6_lk" -> "lock" [] x = "nt_7_l" -> "local" [] x = "nt_7_ul" -> "unlock" [] x = "nt_7b_l" -> "local" [] x = "nt_7c_l" -> "local" [] x = "nt_8_ul" -> "unlock" [] x = "nx_0_l" -> "local" [] x = "nx_1_l" -> "local" [] x = "nx_2_l" -> "local" [] x = "sc_0_l" -> "local" [] x = "sc_1_l" -> "local" [] x = "sc_2_st" -> "st" [] x = "sc_3_lk" -> "lock" [] x = "sc_4_ld" -> "ld" [] x = "sc_5_ul" -> "unlock" [] x = "sc_6_l" -> "local" [] x = "sc_6_pd" -> "pd" [] x = "sc_7_lk" -> "lock" [] x = "sc_8_ld" -> "ld" [] x = "sc_9_ul" -> "unlock" [] x = "sc_p_pd" -> "pd" [] x = "sc_r_l" -> "local" [] x = "sv_1_v" -> "v" [] x = "wd_0_l" -> "local" [] x = "wd_1_l" -> "local" [] x = "wd_8_l" -> "local" [] x = "wd_9_l" -> "local" [] x = "we_1_l" -> "local" [] x = "wl_0_l" -> "local" [] x = "wl_1_l" -> "local" [] x = "wl_2_l" -> "local" [] x = "wl_3_l" -> "local" [] x = "wn_1_st" -> "st" [] x = "wn_7_pd" -> "pd" [] x = "ws_1_l" -> "local" [] x = "ws_2_l" -> "local" [] x = "wu_0_l" -> "local" [] x = "wu_1_ul" -> "unlock" [] x = "wu_2_lk" -> "lock" [] x = "Done" -> "none"]
+ResetAll == (* Global variables *)
+        /\ live' = T0.live
+        /\ notified' = T0.notified
+        /\ exp' = T0.exp
+        /\ par' = T0.par
+        /\ kids' = T0.kids
+        /\ wts' = [n \in Notes |-> <<>>]
+        /\ disc' = [n \in Notes |-> 0]
+        /\ lk' = [n \in Notes |-> 0]
+        /\ nww' = [t \in Threads |-> [n \in Notes |-> 0]]
+        /\ sem' = [t \in Threads |-> 0]
+        /\ cval' = CV0
+        /\ cwaited' = 0
+        /\ cq' = <<>>
+        /\ clk' = 0
+        /\ nwc' = [t \in Threads |-> 0]
+        /\ cmu' = 0
+        /\ badmu' = FALSE
+        /\ cz' = (CV0 = 0)
+        /\ now' = 0
+        /\ ip' = [t \in Threads |-> 1]
+        /\ ret' = [t \in Threads |-> -1]
+        /\ dres' = [t \in Threads |-> 0]
+        /\ called' = [n \in Notes |-> FALSE]
+        /\ dl0' = T0.dl0
+        /\ lpar' = T0.lpar
+        /\ wfor' = [t \in Threads |-> 0]
+        /\ freeing' = [n \in Notes |-> FALSE]
+        /\ badret' = FALSE
+        /\ vcount' = [t \in Threads |-> 0]
+        /\ uaf' = FALSE
+        /\ taint4' = FALSE
+        /\ taint5' = FALSE
+        /\ taint6' = FALSE
+        (* Procedure notify_child *)
+        /\ cn' = [ self \in ProcSet |-> defaultInitValue]
+        /\ cp' = [ self \in ProcSet |-> defaultInitValue]
+        /\ i' = [ self \in ProcSet |-> 1]
+        /\ klist' = [ self \in ProcSet |-> <<>>]
+        /\ w' = [ self \in ProcSet |-> 0]
+        (* Procedure notify *)
+        /\ tn' = [ self \in ProcSet |-> defaultInitValue]
+        /\ p' = [ self \in ProcSet |-> 0]
+        (* Procedure ndeadline *)
+        /\ dn' = [ self \in ProcSet |-> defaultInitValue]
+        /\ nt' = [ self \in ProcSet |-> 0]
+        (* Procedure nnotify *)
+        /\ xn' = [ self \in ProcSet |-> defaultInitValue]
+        /\ xcl' = [ self \in ProcSet |-> defaultInitValue]
+        (* Procedure nnew *)
+        /\ wn' = [ self \in ProcSet |-> defaultInitValue]
+        /\ wp' = [ self \in ProcSet |-> defaultInitValue]
+        /\ wdl' = [ self \in ProcSet |-> defaultInitValue]
+        /\ fail' = [ self \in ProcSet |-> defaultInitValue]
+        (* Procedure nfree *)
+        /\ fn' = [ self \in ProcSet |-> defaultInitValue]
+        /\ fp' = [ self \in ProcSet |-> 0]
+        /\ fi' = [ self \in ProcSet |-> 1]
+        /\ fk' = [ self \in ProcSet |-> <<>>]
+        (* Procedure cadd *)
+        /\ cdl' = [ self \in ProcSet |-> defaultInitValue]
+        /\ cv' = [ self \in ProcSet |-> 0]
+        /\ cwk' = [ self \in ProcSet |-> 0]
+        (* Procedure nwaitn *)
+        /\ objs' = [ self \in ProcSet |-> defaultInitValue]
+        /\ adl' = [ self \in ProcSet |-> defaultInitValue]
+        /\ single' = [ self \in ProcSet |-> defaultInitValue]
+        /\ wm' = [ self \in ProcSet |-> defaultInitValue]
+        /\ k' = [ self \in ProcSet |-> 1]
+        /\ rt' = [ self \in ProcSet |-> 0]
+        /\ cnt' = [ self \in ProcSet |-> 0]
+        /\ rdy' = [ self \in ProcSet |-> 0]
+        /\ enq' = [ self \in ProcSet |-> FALSE]
+        /\ wq' = [ self \in ProcSet |-> FALSE]
+        /\ unl' = [ self \in ProcSet |-> FALSE]
+        (* Procedure swc *)
+        /\ sdl' = [ self \in ProcSet |-> defaultInitValue]
+        /\ scn' = [ self \in ProcSet |-> defaultInitValue]
+        /\ sct' = [ self \in ProcSet |-> 0]
+        /\ sldl' = [ self \in ProcSet |-> 0]
+        /\ snear' = [ self \in ProcSet |-> FALSE]
+        /\ sso' = [ self \in ProcSet |-> 0]
+        (* Procedure semv *)
+        /\ st' = [ self \in ProcSet |-> defaultInitValue]
+        (* Procedure npoll *)
+        /\ pn' = [ self \in ProcSet |-> defaultInitValue]
+        /\ stack' = [self \in ProcSet |-> << >>]
+        /\ pc' = [self \in ProcSet |-> "c0"]
+\* END GENERATED
 LocalPending == {u \in Threads : pc[u] \in LocalLabels}
 NextU == IF LocalPending # {} THEN Step(CHOOSE u \in LocalPending : TRUE)
          ELSE (\E self \in Threads : Step(self)) \/ Tick
